@@ -489,7 +489,7 @@ pub fn run(ctx: &Ctx) -> Outcome {
     let shards = 64usize;
     let bfs_cfgs: Vec<(bool, bool)> = vec![(false, false), (false, true), (true, false), (true, true)];
     let nb = bfs_cfgs.len();
-    let report = run_sharded(ctx, nb + shards, |shard, rep| {
+    let mut report = run_sharded(ctx, nb + shards, |shard, rep| {
         if shard < nb {
             explore_two_signs(bfs_cfgs[shard].0, bfs_cfgs[shard].1, rep);
         } else {
@@ -525,6 +525,12 @@ pub fn run(ctx: &Ctx) -> Outcome {
             }
         }
     });
+    {
+        // the same calls from a thread-local destructor while a thread exits (see exitprobe.rs)
+        let mut at_exit = Report::new();
+        crate::exitprobe::check("virtual_sign", MON, &mut at_exit);
+        report.merge(at_exit);
+    }
     let cells = report.set_len("matrix_addressed_kind_x_bystander_state");
     let floors = vec![
         floor("the implementation's equality separates sign states whose futures differ (the explorer's visited set relies on it)", vsx::equality_merges_states_with_different_futures() == 0, vsx::equality_merges_states_with_different_futures()),
